@@ -111,6 +111,8 @@ def scenarios(thorough):
     add("reference-width", "variants", {"m.fa": fasta([(n, s[:-2]) for n, s in recs()])})
     add("reference-width", "variants", {"m.fa": fasta([("ref", REF)] + [(n, s + "A") for n, s in recs()])},
         args=["variants", "--msa", "@m.fa", "--reference", "ref", "-a", "@a.gb"], tag="ref-in-msa")
+    add("reference-width", "variants", {"m.fa": fasta([("ref", REF + "AC")] + [(n, s + "AC") for n, s in recs()])},
+        args=["variants", "--msa", "@m.fa", "--reference", "ref", "-a", "@a.gb"], tag="alignment-longer-than-annotation")
     for cmd in ("closest", "closestn"):
         add("query-target-width", cmd, {"t.fa": fasta([(n, s[:-2]) for n, s in recs(prefix="t")])}, tag="shorter")
         add("query-target-width", cmd, {"t.fa": fasta([(n, s + "AC") for n, s in recs(prefix="t")])}, tag="longer")
